@@ -38,39 +38,70 @@ func init() {
 	monitorFactories["C16"] = func() []world.Monitor { return []world.Monitor{NewC16()} }
 
 	check.Register("life", scnLife)
-
-	lifeJobs := func(prop string, quickN, thoroughN int, extra map[string]string) func(string, int64) []check.Job {
-		return func(tier string, seed int64) []check.Job {
-			n := quickN
+	check.Register("authz", scnAuthz)
+	check.Register("actor", scnActor)
+	monitorFactories["C10"] = func() []world.Monitor { return []world.Monitor{&C10{}} }
+	c10life := lifeJobs("C10", 2, 24, nil)
+	check.RegisterSpec(&check.Spec{Prop: "C10", Level: "exploration",
+		Rule: "an attacker node whose own TxAddresses list names the victims (gateway, its hot key, providers, owners' accounts) and a plain attacker account send cancel / complete / ready / migrate / store of a captured owner-signed proposal / store on a sponsor / node messages against other parties' objects, with the claimed provider set to itself, the victim gateway, the victim provider and a non-node; rightful actors are interleaved as controls; lifecycle walks ride along. The oracle decides every ACCEPTED transaction from the pre-state: who may report a shard, cancel, make ready, migrate, be charged, and whose node/pledge/balance a node message touched. A case is (message/attacker/claimed provider, accepted or rejected); distinct_nontrivial counts distinct cases.",
+		Jobs: func(tier string, seed int64) []check.Job {
+			jobs := c10life(tier, seed)
+			n, rounds := 2, "2"
 			if tier == "thorough" {
-				n = thoroughN
+				n, rounds = 12, "6"
+			}
+			for i := 0; i < n; i++ {
+				jobs = append(jobs, check.Job{Prop: "C10", Scenario: "actor", Seed: seed*6007 + int64(i), Args: map[string]string{"rounds": rounds}})
+			}
+			return jobs
+		},
+		MinCases:    map[string]int{"quick": 40, "thorough": 60},
+		Assumptions: []string{"the transaction signer is known from the request factory; entitlement is evaluated on the state immediately before the transaction"}})
+	monitorFactories["C09"] = func() []world.Monitor { return []world.Monitor{&C09{}, NewC16()} }
+	check.RegisterSpec(&check.Spec{Prop: "C09", Level: "exploration",
+		Rule: "adversary matrix: request type {update, force-push, renew, terminate, permission} x signer {owner, read-write grantee, read-only grantee, stranger, revoked grantee} x relayer {named gateway, its hot key, another gateway, non-node} x mutation {none, payload altered after signing, replayed signature of another request, garbage JWS, empty JWS, owner field of the victim, kid of the victim signed with another key, sid kid naming a foreign document version, commit ids embedding the data id / with empty base / separators}, against models of a did:key and a did:sid owner; the oracle compares the full projection of the target model (metadata, alias, orders, shards, expiry schedule) before and after each request whose authorization is known by construction. A case is (type/signer/mutation/relayer, accepted or rejected); distinct_nontrivial counts distinct cases.",
+		Jobs: func(tier string, seed int64) []check.Job {
+			n, rounds, rel := 2, "1", "2"
+			if tier == "thorough" {
+				n, rounds, rel = 16, "3", "4"
 			}
 			var jobs []check.Job
 			for i := 0; i < n; i++ {
-				args := map[string]string{"profile": []string{"mixed", "renewheavy", "timeouts", "migrate", "rewards"}[i%5]}
-				for k, v := range extra {
-					args[k] = v
-				}
-				if tier == "thorough" {
-					args["ops"] = "110"
-				}
-				jobs = append(jobs, check.Job{Prop: prop, Scenario: "life", Seed: seed*1000003 + int64(i), Args: args})
+				jobs = append(jobs, check.Job{Prop: "C09", Scenario: "authz", Seed: seed*7919 + int64(i), Args: map[string]string{"rounds": rounds, "relayers": rel}})
 			}
 			return jobs
-		}
-	}
+		},
+		MinCases:    map[string]int{"quick": 100, "thorough": 300},
+		Assumptions: []string{"authorization of each probe is known by construction from the request factory (which key signed which bytes, role of that DID for the model at that moment)"}})
+
 	check.RegisterSpec(&check.Spec{Prop: "C13", Level: "exploration",
-		Rule:     "seeded random walks over the order lifecycle (store/ready/complete/update/force-push/renew/terminate/cancel/migrate/claim/capacity changes, silent providers, block advance across every scheduled height); after every block all relations are evaluated on the committed state. A case is the shape (bucketed counts of orders, shards, models, pending timeouts, pending expiries) of a state on which the relations were evaluated; distinct_nontrivial counts distinct shapes with at least one order or model.",
-		Jobs:     lifeJobs("C13", 5, 64, nil),
-		MinCases: map[string]int{"quick": 10, "thorough": 30},
+		Rule:        "seeded random walks over the order lifecycle (store/ready/complete/update/force-push/renew/terminate/cancel/migrate/claim/capacity changes, silent providers, block advance across every scheduled height); after every block all relations are evaluated on the committed state. A case is the shape (bucketed counts of orders, shards, models, pending timeouts, pending expiries) of a state on which the relations were evaluated; distinct_nontrivial counts distinct shapes with at least one order or model.",
+		Jobs:        lifeJobs("C13", 5, 64, nil),
+		MinCases:    map[string]int{"quick": 10, "thorough": 30},
 		Assumptions: []string{"state is read through the keepers' own getters over the committed multistore", "workloads reach only the states the seeded walks produce"}})
-	for _, id := range []string{"C04", "C05", "C06", "C07", "C08", "C11", "C15", "C16"} {
+	for _, id := range []string{"C04", "C05", "C06", "C07", "C08", "C11", "C15"} {
 		check.RegisterSpec(&check.Spec{Prop: id, Level: "exploration", Rule: "lifecycle walks (draft)", Jobs: lifeJobs(id, 5, 64, nil), MinCases: map[string]int{"quick": 4, "thorough": 8}})
 	}
+	c16life := lifeJobs("C16", 3, 40, nil)
+	check.RegisterSpec(&check.Spec{Prop: "C16", Level: "exploration",
+		Rule: "lifecycle walks (concurrent updates through two gateways, cancels, timeouts, force-pushes) plus the authorization matrix with commit-id shapes {exact base, empty base, substring/prefix of the latest, data id embedded, separators only}; the oracle keeps an id registry and, per model, compares each accepted update's stated base with the last committed version and each history change with append-one / replace-last. A case is (accepted update: base shape, operation, model status) or (history change kind, length); distinct_nontrivial counts distinct cases.",
+		Jobs: func(tier string, seed int64) []check.Job {
+			jobs := c16life(tier, seed)
+			n, rounds := 1, "1"
+			if tier == "thorough" {
+				n, rounds = 8, "2"
+			}
+			for i := 0; i < n; i++ {
+				jobs = append(jobs, check.Job{Prop: "C16", Scenario: "authz", Seed: seed*104729 + int64(i), Args: map[string]string{"rounds": rounds, "relayers": "2"}})
+			}
+			return jobs
+		},
+		MinCases:    map[string]int{"quick": 4, "thorough": 6},
+		Assumptions: []string{"history is read from the metadata query after every transaction and block"}})
 	check.RegisterSpec(&check.Spec{Prop: "C14", Level: "exploration",
-		Rule:     "same lifecycle walks; after every block the six aggregate equalities are evaluated per provider and network-wide. A case is the bucketed (providers, live shards, any renewed shard, open debts) shape of a state; distinct_nontrivial counts distinct shapes.",
-		Jobs:     lifeJobs("C14", 5, 64, nil),
-		MinCases: map[string]int{"quick": 6, "thorough": 12},
+		Rule:        "same lifecycle walks; after every block the six aggregate equalities are evaluated per provider and network-wide. A case is the bucketed (providers, live shards, any renewed shard, open debts) shape of a state; distinct_nontrivial counts distinct shapes.",
+		Jobs:        lifeJobs("C14", 5, 64, nil),
+		MinCases:    map[string]int{"quick": 6, "thorough": 12},
 		Assumptions: []string{"state is read through the keepers' own getters over the committed multistore"}})
 }
 
@@ -122,6 +153,29 @@ func scnLife(ctx *check.JobCtx) {
 }
 
 // debugging helpers
-func DebugLifeWorld(ctx *check.JobCtx) *world.World { return newLifeWorld(ctx, monitorsFor(ctx.Job.Prop)...) }
-func LifeProfileDbg(n string) LifeParams           { return lifeProfile(n) }
+func DebugLifeWorld(ctx *check.JobCtx) *world.World {
+	return newLifeWorld(ctx, monitorsFor(ctx.Job.Prop)...)
+}
+func LifeProfileDbg(n string) LifeParams               { return lifeProfile(n) }
 func DebugLifeWorldAll(ctx *check.JobCtx) *world.World { return newLifeWorld(ctx, allMonitors()...) }
+
+func lifeJobs(prop string, quickN, thoroughN int, extra map[string]string) func(string, int64) []check.Job {
+	return func(tier string, seed int64) []check.Job {
+		n := quickN
+		if tier == "thorough" {
+			n = thoroughN
+		}
+		var jobs []check.Job
+		for i := 0; i < n; i++ {
+			args := map[string]string{"profile": []string{"mixed", "renewheavy", "timeouts", "migrate", "rewards"}[i%5]}
+			for k, v := range extra {
+				args[k] = v
+			}
+			if tier == "thorough" {
+				args["ops"] = "110"
+			}
+			jobs = append(jobs, check.Job{Prop: prop, Scenario: "life", Seed: seed*1000003 + int64(i), Args: args})
+		}
+		return jobs
+	}
+}
